@@ -218,6 +218,18 @@ class C07(Prop):
                     dst[1], dst[2], dst[3] = src[1], src[2], src[3]
                     c['stream'] += ':repeated-bar-after-the-cut'
             c['market2'] = future_rewrite(rng, c['market'], c['T'], c['mode_future'])
+            if c['market']['kind'] == 'csv' and rng.random() < 0.15:
+                # a re-rating on the cut day: one asset's prices jump by 80 % on T; in one world the new level holds, in the
+                # other the jump is undone the next day (the two worlds agree on every bar up to and including T)
+                a_ = rng.choice(sorted(c['market']['assets']))
+                base = copy.deepcopy(c['market'])
+                jump = lambda r: [r[0]] + [None if v is None else v * 1.8 for v in r[1:]]
+                up, back = copy.deepcopy(base), copy.deepcopy(base)
+                up['assets'][a_] = [jump(r) if r[0] >= c['T'] else r for r in base['assets'][a_]]
+                back['assets'][a_] = [jump(r) if r[0] == c['T'] else r for r in base['assets'][a_]]
+                c['market'], c['market2'] = up, back
+                c['mode_future'] = 'rewrite'
+                c['stream'] += ':re-rating-at-the-cut'
             c['mode'] = 'pair'
             if c['market']['kind'] == 'csv' and rng.random() < 0.35:
                 # in both worlds the data handler object has first served a LATER session (a parameter sweep re-using the handler)
